@@ -6,6 +6,7 @@ import (
 	"maps"
 	"net/http"
 	"os"
+	"path/filepath"
 	"strconv"
 	"strings"
 
@@ -560,20 +561,64 @@ func (r *Runner) Format(rslv resolver.Resolver) error {
 	}
 
 	formatted := formatter.New(r.config.Format).Format(vcl)
-	var w io.Writer
-	if r.config.Format.Overwrite {
-		writeln(cyan, "Formatted %s.", main.Name)
-		fp, err := os.OpenFile(main.Name, os.O_TRUNC|os.O_WRONLY, 0o644)
-		if err != nil {
-			return errors.WithStack(err)
-		}
-		defer fp.Close()
-		w = fp
-	} else {
-		w = os.Stdout
+	if formatted == nil {
+		// The formatter handles files that consist of declarations only and
+		// gives no reader for anything else, e.g. statement-only snippets.
+		return fmt.Errorf("%s could not be formatted: statements outside of a declaration are not supported", main.Name)
 	}
-	if _, err := io.Copy(w, formatted); err != nil {
+	if !r.config.Format.Overwrite {
+		_, err := io.Copy(os.Stdout, formatted)
 		return err
 	}
+	if err := overwriteFile(main.Name, formatted); err != nil {
+		return errors.WithStack(err)
+	}
+	writeln(cyan, "Formatted %s.", main.Name)
 	return nil
+}
+
+// overwriteFile replaces the content of the named file without ever exposing a
+// partial result: the content is written to a temporary file in the same directory,
+// flushed, and renamed over the target only after every step has succeeded.
+// On any failure the target keeps its previous content.
+func overwriteFile(name string, content io.Reader) (err error) {
+	// Write through a symbolic link instead of replacing the link itself
+	if resolved, e := filepath.EvalSymlinks(name); e == nil {
+		name = resolved
+	}
+	info, err := os.Stat(name)
+	if err != nil {
+		return err
+	}
+	// Renaming only needs a writable directory, keep refusing to replace a read-only file
+	probe, err := os.OpenFile(name, os.O_WRONLY, 0)
+	if err != nil {
+		return err
+	}
+	probe.Close()
+
+	tmp, err := os.CreateTemp(filepath.Dir(name), "."+filepath.Base(name)+".*.tmp")
+	if err != nil {
+		return err
+	}
+	defer func() {
+		if err != nil {
+			tmp.Close()
+			os.Remove(tmp.Name())
+		}
+	}()
+
+	if _, err = io.Copy(tmp, content); err != nil {
+		return err
+	}
+	if err = tmp.Chmod(info.Mode().Perm()); err != nil {
+		return err
+	}
+	if err = tmp.Sync(); err != nil {
+		return err
+	}
+	if err = tmp.Close(); err != nil {
+		return err
+	}
+	return os.Rename(tmp.Name(), name)
 }
